@@ -29,6 +29,8 @@ RULE = ('base scripts: 1-4 (quick, all of them) / up to 8 (thorough, random) '
         'enabled; a raised fault propagates as the same object; every '
         'enabling assignment stays within a logical step budget '
         '(sys.monitoring PY_START count on dispatch and the setter). '
+        'Bracket sub-workload: every callback disables dispatching while '
+        'it works and enables it again, 1-150 (and 400/600) events pending. '
         'Non-trivial = >=2 deferred events and a fault position that is '
         'neither the first nor the last callback, or >=2 release cycles.')
 ANCHORS = [
@@ -47,7 +49,12 @@ ASSUMPTIONS = [
     "don't-care: the faulting event itself (partially delivered) is only "
     'judged "no handler sees it twice within one assignment"; events whose '
     'name never had a listener; order between a pending remainder and events '
-    'dispatched immediately meanwhile',
+    'dispatched immediately meanwhile; with an enabling assignment made from '
+    'inside a callback of a running release the two clauses "delivered before '
+    'the enabling assignment returns" and "in dispatch order" cannot both '
+    'hold for the handlers the in-flight event has not reached yet: the '
+    'nested assignment must deliver what is pending, order is judged on the '
+    'first delivery of each event',
     'step budget = 10 x (events pending + events the workload dispatches from '
     'callbacks) + 100 entries into dispatch/setter; correct code needs at '
     'most pending + dispatched + 1',
@@ -101,6 +108,13 @@ def gen_cases(tier, seed):
                           [1, rng.randrange(40), rng.choice(FAULTS)]],
                'cycles': 2, 'world': rng.random() < 0.3,
                'extra': [['a', 'b'], ['c']], 'direct': rng.random() < 0.5}
+    # ---- every callback brackets its work with disable / enable
+    for i in range(60 if tier == 'quick' else 16 * 200):
+        rng = random.Random(f'C04/bracket/{seed}/{tier}/{i}')
+        yield {'scenario': 'bracket', 'world': rng.random() < 0.4,
+               'handlers': rng.randint(1, 3),
+               'n': rng.choice([400, 600]) if i % 30 == 7
+               else rng.randint(1, 150)}
     if tier == 'quick':
         n = 600
     else:
@@ -138,7 +152,66 @@ def budget(desper):
     return _budget
 
 
+def run_bracket(case):
+    """Every callback disables dispatching while it works and enables it
+    again (each nested enabling assignment releases what is pending)."""
+    desper = import_desper()
+    res = Res()
+    d = desper.World() if case['world'] else desper.EventDispatcher()
+    log = []
+
+    def ev(self, token):
+        d.dispatch_enabled = False
+        log.append((self.idx, token))
+        d.dispatch_enabled = True
+
+    H = desper.event_handler('ev')(type('BH', (), {'ev': ev}))
+    hs = []
+    for i in range(case['handlers']):
+        h = H()
+        h.idx = i
+        hs.append(h)
+        d.add_handler(h)
+    n = case['n']
+    d.dispatch_enabled = False
+    for t in range(n):
+        d.dispatch('ev', t)
+    exc = None
+    try:
+        d.dispatch_enabled = True
+    except BaseException as ex:     # noqa: B902 - RecursionError included
+        exc = ex
+    res.stats['bracket_releases'] += 1
+    res.stats['deliveries_checked'] += len(log)
+    res.tags['bracket_queue_length'].add(min(n // 50 * 50, 400))
+    if exc is not None:
+        res.div(0, 'bracket-raised', f'enabling with {n} pending events '
+                'raised although no callback raises (every callback '
+                'brackets its work with disable/enable)', 'no exception',
+                f'{type(exc).__name__}', pending=n)
+        # what happened to the events is part of the same witness
+        d.dispatch_enabled = True
+    import collections
+    got = collections.Counter(log)
+    lost = [(h, t) for h in range(len(hs)) for t in range(n)
+            if got[(h, t)] != 1]
+    if lost and not res.divs:
+        res.div(0, 'bracket-lost', 'events not delivered exactly once each',
+                'once each', lost[:5], pending=n)
+    first = {}
+    for h, t in log:
+        first.setdefault(t, len(first))
+    if not res.divs and sorted(first, key=first.get) != sorted(first):
+        res.div(0, 'out-of-order', 'first deliveries not in dispatch order',
+                None, sorted(first, key=first.get)[:10])
+    res.nontrivial = n >= 2
+    res.sample = {'pending': n, 'delivered': len(log)}
+    return res
+
+
 def run_case(case):
+    if case.get('scenario') == 'bracket':
+        return run_bracket(case)
     desper = import_desper()
     res = Res()
     watchdog = budget(desper)
@@ -571,6 +644,13 @@ def judge(case, res, log, tokens, changes, faulting_tokens, outcomes,
 
 
 def shrink(case):
+    if case.get('scenario') == 'bracket':
+        if case['n'] > 1:
+            yield dict(case, n=case['n'] // 2)
+            yield dict(case, n=case['n'] - 1)
+        if case['handlers'] > 1:
+            yield dict(case, handlers=case['handlers'] - 1)
+        return
     ev = case['events']
     for i in range(len(ev)):
         if len(ev) > 1:
@@ -590,4 +670,8 @@ def shrink(case):
 
 
 def classify(case, div):
+    if case.get('scenario') == 'bracket' and case['n'] >= 300 \
+            and div['kind'] == 'bracket-raised' \
+            and div.get('observed') == 'RecursionError':
+        return 'nested-release-recursion'
     return None
